@@ -842,7 +842,13 @@ def main(tier):
         "rule": "malformed stream (syntax errors, truncations, bit flips, binary, encodings, BOM, CR/CRLF, very long line, deep parentheses) each "
                 "analysed alone and mixed into a project of 5 good files (all analyses), report sections of the good files compared with the "
                 "baseline; malformed content in every role of a package project (package __init__ with re-exports, imported module, sub-package "
-                "__init__, leaf, importer) compared with the project without that file; valid sources rewritten with a continuation after every keyword/operator kind and "
+                "__init__, leaf, importer) compared with the project without that file; PROJECT LEVEL (run against run): projects of 9, 10, 11, 12, 20 and 101 files "
+                "(valid + broken: on and around the > 10 files project-size normalisation of the dead code penalty) with 1, 2 and many broken files (syntax errors, binary, "
+                "UTF-16, invalid UTF-8, truncated, NUL garbage, a dangling symbolic link; only contents the analyser itself cannot analyse alone), valid files with "
+                "4/10/18/20/random functions with dead code, a complex function, a clone family in >= 4400 lines, coupled and scattered classes so that no category score sits on its cap: "
+                "every summary field describing the valid files (health_score, grade, the five category scores, dependency/architecture score, counters of all analyses, "
+                "analyzed_files, total_files) and the exit status and messages of `pyscn check` (lines naming a broken file removed) equal those of the project without the broken files; "
+                "3 valid modules with an import cycle plus 1/2/7 broken files, dependency figures (finding F83); valid sources rewritten with a continuation after every keyword/operator kind and "
                 "newlines/comments inside brackets (same AST under CPython) must not crash and must give the per-function results of the plain file; 4 output formats; nesting depth 40..320 of if/for/try; breadth: 30..120 sequential compound statements of eight shapes (loop then if/else "
                 "returns, if/else in a loop, try/except, elif chain, match cases, loops with else, with blocks); calculateMaxDepth vs its Coq model (value) on random digraphs, random DAGs and import cycles combined with dense DAGs, "
                 "modules in shuffled order; calculateMaxDepth time on complete DAGs of 12..200 modules, layered DAGs, rows of diamonds and random DAGs against "
